@@ -12,6 +12,7 @@ PROP = {
         {"name": "atof_partial", "quick": 600000, "thorough": 8000000, "maxlen": 24},
         {"name": "atof_long", "quick": 500000, "thorough": 8000000, "maxlen": 64},
     ],
+    "uchar": ["atof", "ftoa"],
     "fuzz": [{"name": "atof", "secs": 60, "maxlen": 96}, {"name": "ftoa", "secs": 30, "maxlen": 48}],
 }
 
